@@ -38,6 +38,103 @@ const LITS: [&str; 22] = [
 const OPS2: [&str; 9] = ["+", "*", "-", "logand", "logior", "logxor", "sha256", "concat", "c"];
 
 impl<'a> Gen<'a> {
+    /// an expression big enough that the optimiser keeps a binding for it
+    fn big_expr(&mut self, vars: &[String]) -> String {
+        let op = *self.r.pick(&["+", "*", "logior", "logxor", "concat"]);
+        let n = self.r.range(3, 5);
+        let mut parts = Vec::new();
+        for _ in 0..n {
+            if self.r.chance(3, 5) && !vars.is_empty() {
+                parts.push(self.r.pick(vars).clone());
+            } else {
+                parts.push(format!("{}", self.r.range(2, 3_000_000)));
+            }
+        }
+        format!("({} {})", op, parts.join(" "))
+    }
+
+    /// a body with two or three *independent* repeated subexpressions, each used several
+    /// times: several CSE candidates with the same insertion root
+    fn cse_body(&mut self, vars: &[String]) -> String {
+        let ncommon = self.r.range(2, 3) as usize;
+        let mut commons: Vec<String> = Vec::new();
+        for _ in 0..ncommon {
+            let mut e = self.big_expr(vars);
+            if self.r.chance(1, 3) {
+                let inner = e.clone();
+                e = format!("(sha256 {} {})", inner, self.atom(vars));
+            }
+            commons.push(e);
+        }
+        let nterms = self.r.range(4, 8) as usize;
+        let mut terms: Vec<String> = Vec::new();
+        for i in 0..nterms {
+            let c = commons[if i < commons.len() * 2 { i % commons.len() } else { self.r.below(commons.len() as u64) as usize }].clone();
+            let a = self.atom(vars);
+            terms.push(match self.r.below(4) {
+                0 => format!("(sha256 {} {})", c, a),
+                1 => format!("(concat {} {})", c, a),
+                2 => format!("(if {} {} {})", a, c, a),
+                _ => c,
+            });
+        }
+        let mut body = String::from("()");
+        for t in terms.iter().rev() {
+            body = format!("(c {} {})", t, body);
+        }
+        body
+    }
+
+    /// nested bindings, each used several times by later bindings and by the body: every
+    /// binding becomes a synthetic helper whose inline/non-inline choice the optimiser makes,
+    /// and the choices interact
+    fn let_body(&mut self, vars: &[String], depth: i32) -> String {
+        let nb = self.r.range(2, 3) as usize;
+        let form = *self.r.pick(&["let", "let*", "assign"]);
+        let mut scope: Vec<String> = vars.to_vec();
+        let mut names: Vec<String> = Vec::new();
+        let mut binds: Vec<String> = Vec::new();
+        for _ in 0..nb {
+            let n = self.fresh();
+            let avail: Vec<String> = if form == "let" { vars.to_vec() } else { scope.clone() };
+            let e = if self.r.chance(1, 2) {
+                self.big_expr(&avail)
+            } else {
+                let a = self.r.pick(&avail).clone();
+                let b = self.r.pick(&avail).clone();
+                format!("({} {} {} {})", *self.r.pick(&["+", "*", "concat", "logxor"]), a, b, a)
+            };
+            if form == "assign" {
+                binds.push(format!("{} {}", n, e));
+            } else {
+                binds.push(format!("({} {})", n, e));
+            }
+            scope.push(n.clone());
+            names.push(n);
+        }
+        let inner = if depth > 0 && self.r.chance(2, 3) {
+            self.let_body(&scope, depth - 1)
+        } else {
+            "()".to_string()
+        };
+        let mut body = inner;
+        let uses = self.r.range(2, 5);
+        for _ in 0..uses {
+            let v = self.r.pick(&names).clone();
+            let w = self.r.pick(&scope).clone();
+            body = match self.r.below(3) {
+                0 => format!("(c {} {})", v, body),
+                1 => format!("(c (sha256 {} {}) {})", v, w, body),
+                _ => format!("(c (+ {} {}) {})", v, w, body),
+            };
+        }
+        if form == "assign" {
+            format!("(assign {} {})", binds.join(" "), body)
+        } else {
+            format!("({} ({}) {})", form, binds.join(" "), body)
+        }
+    }
+
     fn fresh(&mut self) -> String {
         self.var_ctr += 1;
         // either a small name space (shadowing, cross-program name clashes) or a wide one
@@ -159,6 +256,10 @@ pub fn program(r: &mut Rng, dialect: usize, size: u32) -> String {
     // plain style: no constants or macros, just functions full of bindings (what the
     // optimiser's CSE and inlining decisions feed on)
     let plain = g.r.chance(2, 3);
+    // for the optimising dialects: bodies with several independent CSE candidates
+    let cse_rich = dialect >= 4 && g.r.chance(1, 3);
+    // ... or with nests of bindings whose inlining decisions interact
+    let let_rich = dialect >= 4 && !cse_rich && g.r.chance(1, 2);
     let mut forms: Vec<String> = Vec::new();
     let nconst = if plain { 0 } else { g.r.below(3) as usize };
     for i in 0..nconst {
@@ -200,7 +301,14 @@ pub fn program(r: &mut Rng, dialect: usize, size: u32) -> String {
         let args: Vec<String> = (0..n).map(|j| format!("a{}_{}", i, j)).collect();
         g.budget = size as i32 + 4;
         let depth = g.r.range(2, 5) as i32;
-        let body = g.expr(&args, depth);
+        let body = if cse_rich && g.r.chance(2, 3) {
+            g.cse_body(&args)
+        } else if let_rich && g.r.chance(3, 4) {
+            let d = g.r.range(0, 2) as i32;
+            g.let_body(&args, d)
+        } else {
+            g.expr(&args, depth)
+        };
         let kw = *g.r.pick(&["defun", "defun", "defun-inline"]);
         forms.push(format!("({} f{} ({}) {})", kw, i, args.join(" "), body));
         g.funs.push(Fun {
@@ -212,7 +320,11 @@ pub fn program(r: &mut Rng, dialect: usize, size: u32) -> String {
     let _ = g.funs.iter().filter(|f| f.is_macro).count();
     g.budget = size as i32 + 6;
     let depth = g.r.range(2, 5) as i32;
-    let main = g.expr(&["X".to_string(), "Y".to_string()], depth);
+    let main = if cse_rich && g.r.chance(1, 3) {
+        g.cse_body(&["X".to_string(), "Y".to_string()])
+    } else {
+        g.expr(&["X".to_string(), "Y".to_string()], depth)
+    };
     let sig = SIGILS[dialect];
     let inc = if sig.is_empty() {
         String::new()
